@@ -44,6 +44,8 @@ pub enum Tok {
     /// bytes), 1 = CRC32C(ip), 2 = CRC32C(ip || 20 x 0xff), 3 = the IP octets, 4 = four zero bytes
     /// (the construction is public; only the secrets make a token "issued by this node").
     Guess(u8),
+    /// The latest token the server issued to the IP of the given source.
+    Of(u8),
 }
 
 #[derive(Clone, Copy, Debug, PartialEq, Eq, Hash)]
@@ -96,12 +98,18 @@ pub const SOURCES: [([u8; 4], u16); 4] = [
 
 /// Sources beyond the four named ones (used to fill one info hash with more announcers than a
 /// reply can carry): one IP each.
-pub const N_SOURCES: usize = 32;
+pub const N_SOURCES: usize = 96;
+
+/// Sources 64..96: the 32 addresses that differ from source 0's IP in exactly one bit.
+pub const NEIGHBOURS_FROM: u8 = 64;
 
 pub fn src_addr(i: u8) -> SocketAddrV4 {
     if (i as usize) < SOURCES.len() {
         let (ip, port) = SOURCES[i as usize];
         SocketAddrV4::new(Ipv4Addr::from(ip), port)
+    } else if i >= NEIGHBOURS_FROM {
+        let base = u32::from_be_bytes(SOURCES[0].0);
+        SocketAddrV4::new(Ipv4Addr::from(base ^ (1u32 << (i - NEIGHBOURS_FROM))), SOURCES[0].1)
     } else {
         SocketAddrV4::new(Ipv4Addr::new(3, 3, 3, i), 3000 + i as u16)
     }
@@ -442,6 +450,7 @@ impl SrvState {
                 t.resize(n as usize, 0);
                 t
             }),
+            Tok::Of(other) => self.tokens.get(src_addr(other).ip()).and_then(|v| v.last().cloned()),
             Tok::Guess(k) => {
                 let mut data = ip.octets().to_vec();
                 Some(match k {
